@@ -2,8 +2,10 @@ package main
 
 import (
 	"bytes"
+	"context"
 	"crypto/rand"
 	"encoding/json"
+	"errors"
 	"fmt"
 	"io"
 	"math"
@@ -17,6 +19,7 @@ import (
 	"sync"
 	"sync/atomic"
 	"syscall"
+	"time"
 
 	spg "go.1password.io/spg"
 
@@ -61,6 +64,7 @@ type c09Gen struct {
 	WL     *WLCase  `json:"wl,omitempty"`
 	Script []uint32 `json:"script"`
 	Reject []int    `json:"reject_at,omitempty"`
+	RejRun int      `json:"reject_run,omitempty"` // how many rejected raw words in a row precede the accepted one there
 	// LocalOnly: the choice record depends on the list's construction order (uncapitalisable words): the
 	// generation is compared within this process, not with fresh processes
 	LocalOnly bool   `json:"local_only,omitempty"`
@@ -98,6 +102,7 @@ func (g *c09Gen) tape() *tape.Tape {
 		for _, d := range g.Reject {
 			t.RejectAt[d] = true
 		}
+		t.RejectRun = g.RejRun
 	}
 	return t
 }
@@ -161,6 +166,7 @@ func c09Sample(r *gen.R) *c09Gen {
 	}
 	if r.Chance(1, 2) {
 		g.Reject = []int{r.Range(1, 6)}
+		g.RejRun = []int{1, 1, 2, 3, 4, 5, 8, 17}[r.Intn(8)]
 	}
 	switch r.Intn(5) {
 	case 0: // no requirement
@@ -221,13 +227,14 @@ func (s *seqReader) Read(b []byte) (int, error) {
 	return 4, nil
 }
 
-// c09Conservation: many goroutines draw at once from a source that never repeats a word. With the bound
-// 2^31 a draw returns its own raw word, so every result must be distinct and the results must be exactly
-// the words handed out (conservation: no draw built from bytes another draw read).
+// c09Conservation: many goroutines draw at once from a source that never repeats a word. The bound is 2^31
+// (a power of two: no word is rejected, one read per draw), and what each word maps to is learned first from
+// a single-goroutine pass over the same words. Conservation: the concurrent results must be exactly the
+// learned images of the words handed out, each used once - no draw built from bytes another draw read, no
+// word dropped - and, where the learned mapping is one-to-one, each goroutine must see its words in the order
+// the source handed them out.
 func c09Conservation(c *Ctx) {
-	src := &seqReader{}
 	save := rand.Reader
-	rand.Reader = src
 	spg.VerifOnDraw = nil
 	defer func() { rand.Reader = save }()
 	const G = 128
@@ -235,6 +242,37 @@ func c09Conservation(c *Ctx) {
 	if c.Thorough() {
 		per = 120000
 	}
+	N := G * per
+	// learning pass
+	learn := &seqReader{}
+	rand.Reader = learn
+	image := make([]uint32, N+1)
+	for w := 1; w <= N; w++ {
+		var r uint32
+		ok := func() (ok bool) {
+			defer func() {
+				if recover() != nil {
+					ok = false
+				}
+			}()
+			r = spg.VerifRandomUint32n(1 << 31)
+			return true
+		}()
+		if !ok || int(atomic.LoadUint32(&learn.n)) != w {
+			c.Violate("draw-misbehaves-on-a-power-of-two-bound", fmt.Sprintf("single goroutine, bound 2^31, word %d: the draw panicked or did not make exactly one read (source position %d)", w, learn.n), nil)
+			return
+		}
+		image[w] = r
+	}
+	want := make(map[uint32]int32, N)
+	inverse := make(map[uint32]uint32, N)
+	for w := 1; w <= N; w++ {
+		want[image[w]]++
+		inverse[image[w]] = uint32(w)
+	}
+	injective := len(inverse) == N
+	src := &seqReader{}
+	rand.Reader = src
 	results := make([][]uint32, G)
 	var wg sync.WaitGroup
 	var panics int32
@@ -259,24 +297,32 @@ func c09Conservation(c *Ctx) {
 	}
 	wg.Wait()
 	total := 0
-	seen := make(map[uint32]bool, G*per)
 	for g, out := range results {
 		total += len(out)
 		prev := uint32(0)
 		for _, v := range out {
-			if seen[v] || v == 0 || v > atomic.LoadUint32(&src.n) || v <= prev {
-				c.Violate("draws-share-source-bytes-under-concurrency", fmt.Sprintf("goroutine %d: draw result %d is a repeat, out of order or not a word the source handed out (each raw word 1,2,3,... must decide exactly one draw)", g, v), nil)
+			want[v]--
+			if want[v] < 0 {
+				c.Violate("draws-share-source-bytes-under-concurrency", fmt.Sprintf("goroutine %d: draw result %d occurs more often than the words handed out can account for (each raw word 1,2,3,... must decide exactly one draw)", g, v), nil)
 				return
 			}
-			seen[v] = true
-			prev = v
+			if injective {
+				w := inverse[v]
+				if w <= prev {
+					c.Violate("draws-share-source-bytes-under-concurrency", fmt.Sprintf("goroutine %d: draw result %d comes from word %d, which the source handed out before word %d that this goroutine used earlier", g, v, w, prev), nil)
+					return
+				}
+				prev = w
+			}
 		}
 	}
-	c.Exec(total)
+	c.Exec(total + N)
 	c.Count("concurrent_conservation_draws", int64(total))
-	if panics > 0 || total != int(atomic.LoadUint32(&src.n)) {
+	if panics > 0 || total != int(atomic.LoadUint32(&src.n)) || total != N {
 		c.Violate("draws-share-source-bytes-under-concurrency", fmt.Sprintf("%d draws used %d source words (%d goroutines panicked)", total, src.n, panics), nil)
+		return
 	}
+	c.Distinct("nontrivial", "concurrent-conservation")
 }
 
 func c09Case(c *Ctx) {
@@ -305,6 +351,19 @@ func c09Case(c *Ctx) {
 		}
 		key0 := g.choices(o0)
 		det := map[string]interface{}{"generation": g.desc(), "script": g.Script, "reads": t0.Reads, "draws": t0.Draws, "bytes": t0.BytesOut}
+		// --- rejected raw words are thrown away: with or without them in the stream the choices are those of the
+		// accepted words
+		if len(g.Reject) > 0 && o0.Pw != nil && t0.Rejected > 0 {
+			t1 := &tape.Tape{Script: g.Script, AutoExtend: true, MaxDraws: 5000}
+			o1 := g.run(t1)
+			c.Exec(1)
+			c.Count("generations_compared_with_and_without_rejected_words", 1)
+			if k1 := g.choices(o1); k1 != key0 {
+				det["rejected_words_in_a_row"] = g.RejRun
+				c.Violate("rejected-raw-words-decide-a-choice", fmt.Sprintf("%s: with %d rejected raw word(s) in front of the accepted word of draw %v the choices are %s; without them %s", g.desc(), g.RejRun, g.Reject, abbreviate(key0), abbreviate(k1)), det)
+				continue
+			}
+		}
 		// --- 2. every choice is derived from the tape
 		if o0.Pw != nil {
 			if t0.BytesOut < 4*t0.Draws-4*t0.Rejected {
@@ -548,10 +607,20 @@ func c09Strace(c *Ctx, k int) {
 		a := append([]string{"-f", "-o", logf, "-e", "trace=getrandom,openat,read"}, inject...)
 		a = append(a, opgen)
 		a = append(a, args...)
-		cmd := exec.Command("strace", a...)
+		// the watchdog only ends runs that cannot end by themselves (a stream of untouched buffers may be one the
+		// bounded draw rejects for ever); a run it ends is set aside, never judged
+		ctx, cancel := context.WithTimeout(context.Background(), 60*time.Second)
+		defer cancel()
+		cmd := exec.CommandContext(ctx, "strace", a...)
+		cmd.SysProcAttr = &syscall.SysProcAttr{Setpgid: true} // strace and the traced opgen end together
+		cmd.Cancel = func() error { return syscall.Kill(-cmd.Process.Pid, syscall.SIGKILL) }
 		var so, se bytes.Buffer
 		cmd.Stdout, cmd.Stderr = &so, &se
 		e := cmd.Run()
+		if ctx.Err() != nil {
+			os.Remove(logf)
+			return "", "", 0, "", errWatchdog
+		}
 		exit = 0
 		if ee, ok := e.(*exec.ExitError); ok {
 			exit = ee.ExitCode()
@@ -615,6 +684,8 @@ func c09Strace(c *Ctx, k int) {
 		c.Exec(1)
 		inj := strings.Count(log0, "(INJECTED)")
 		switch {
+		case err0 == errWatchdog:
+			c.Count("strace_zero_entropy_runs_that_never_accept_the_zero_word", 1)
 		case err0 != nil || inj == 0:
 			c.Count("strace_zero_entropy_not_effective", 1)
 		case exit0 != 0:
@@ -694,6 +765,8 @@ func c09Strace(c *Ctx, k int) {
 		c.Sample(det)
 	}
 }
+
+var errWatchdog = errors.New("watchdog")
 
 // reGetrandomAny matches a completed getrandom of any size: groups = bytes requested, bytes delivered
 var reGetrandomAny = regexp.MustCompile(`(?:getrandom\(|getrandom resumed>)(?:"[^"]*"(?:\.\.\.)?|0x[0-9a-f]+), (\d+), (?:0|GRND_\w+)\)\s+= (-?\d+)`)
